@@ -15,19 +15,6 @@ Definition E10 : R := (10 ^ 10)%R.
 Lemma c_e10_val : fval c_e10 = E10 /\ ffin c_e10 = true.
 Proof. split; [unfold fval, E10; vm_compute; lra | vm_compute; reflexivity]. Qed.
 
-Lemma fmt_bpow k : -1074 <= k -> fmt (bpow radix2 k).
-Proof. intros H. replace (bpow radix2 k) with (IZR 1 * bpow radix2 k)%R by ring. apply fmt_int; [simpl; lia | exact H]. Qed.
-Lemma rnd_opp x : rnd (- x) = (- rnd x)%R.
-Proof. apply round_NE_opp. Qed.
-Lemma rnd_abs_le x k : -1074 <= k -> (Rabs x <= bpow radix2 k)%R -> (Rabs (rnd x) <= bpow radix2 k)%R.
-Proof.
-  intros Hk H. apply Rabs_le_inv in H. apply Rabs_le. split.
-  - rewrite <- (rnd_fmt (bpow radix2 k)) by (apply fmt_bpow, Hk). rewrite <- rnd_opp. apply rnd_le. lra.
-  - rewrite <- (rnd_fmt (bpow radix2 k)) by (apply fmt_bpow, Hk). apply rnd_le. lra.
-Qed.
-Lemma rnd_nonneg x : (0 <= x)%R -> (0 <= rnd x)%R.
-Proof. intros H. rewrite <- rnd_0. apply rnd_le, H. Qed.
-
 Lemma ulp_9e11 : ulp radix2 fexp64 (9 * 10 ^ 11) = bpow radix2 (-13).
 Proof.
   rewrite ulp_neq_0 by lra. unfold cexp. rewrite (mag_unique radix2 (9 * 10 ^ 11) 40).
